@@ -20,7 +20,7 @@ from pathlib import Path
 from .. import clirun, genmap, sandbox
 from ..repo import REPO
 from ..runner import digest_of
-from ..world import World, is_mutating_op
+from ..world import Fault, World, is_mutating_op
 
 ID = "C16"
 LEVEL = "fault_enumeration"
@@ -89,6 +89,7 @@ def gen_case(rng, tier):
             "pretext": w["pretext_agp"],
         })
     case["version"] = rng.choice(["", "", ".2"])
+    case["io_buf"] = rng.choice([16, 64, 8192, 8192])
     case["subset_seed"] = rng.getrandbits(32)
     return case
 
@@ -104,7 +105,7 @@ class Runner:
         self.ind = os.path.join(root, "in")
         self.outd = os.path.join(root, "out")
         self.aux = os.path.join(root, "aux")
-        self.world = World(root)
+        self.world = World(root, io_buf=case.get("io_buf", 8192), read_buf=8192)
         self.evals = 0
         self.violations = []
         self.classes = set()
@@ -140,16 +141,18 @@ class Runner:
             a.append(mode)
         return a
 
-    def run_cli(self, mode):
+    def run_cli(self, mode, fault=None):
         w = self.world
         start = len(w.trace)
-        res_box = {}
+        res_box = {"r": None}
 
         def body():
             res_box["r"] = clirun.invoke(self.cli, self.args(mode))
             clirun.end_of_process()
 
-        w.run_solo(body, name=mode, collect=True)
+        proc = w.run_solo(body, name=mode, collect=True, fault=fault)
+        if proc.outcome[0] == "crashed":
+            clirun.end_of_process()  # forget the dead process's logging handlers
         self.evals += 1
         w.advance(1)
         return res_box["r"], w.trace[start:]
@@ -274,10 +277,68 @@ class Runner:
             if rel in relS and note.startswith("failed"):
                 first = os.path.basename(rel)
                 break
+        self.fault_variants(S, kinds, C, len(trace))
         k = len(S)
         self.classes.add(
             f"noclobber first={self.site_kind(first) if first else '-'} |S|={'1' if k == 1 else ('all' if k == len(C) else 'some')} "
             f"kind={kinds[first] if first else '-'} fmt={self.case['fmt']} log={int(self.case['write_log'])}")
+
+    def fault_variants(self, S, kinds, C, nevents):
+        """The same --no-clobber run with an I/O error or a kill injected at a
+        seeded event: whatever else happens, the pre-existing files stay as
+        they were."""
+        if nevents < 2 or self.violations:
+            return
+        rng = random.Random(f"{self.case['subset_seed']}:{','.join(sorted(S))}")
+        if rng.random() < 0.5 and self.tier == "quick":
+            return
+        for _ in range(2 if self.tier == "quick" else 8):
+            kind = rng.choice(["enospc", "eio_write", "crash", "torn_write"])
+            at = rng.randrange(nevents)
+            self.wipe_out()
+            ident = self.plant(S, kinds, C)
+            fo = Fault(kind, at, rng.random())
+            res, trace = self.run_cli("noclobber", fault=fo)
+            if not fo.fired:
+                continue
+            self.world.probe("noclobber_runs_with_fault_fired")
+            relS = {os.path.join("out", fn) for fn in S}
+            for (pid, n, op, rel, nb, note) in trace:
+                if rel in relS and is_mutating_op(op) and not note.startswith("failed") and note != "CRASH" and op != "utime":
+                    fn = os.path.basename(rel)
+                    self.violate(
+                        "noclobber_mutating_op", f"{self.site_kind(fn)}:{op.split(':')[0]}+{kind}",
+                        f"--no-clobber with {kind} injected at event {at} ({fo.where}) performed {op} on pre-existing {rel}",
+                        S, kinds, f"noclobber+{kind}@{at}@{fo.frac}")
+                    return
+            with self.world.suspend():
+                for fn in S:
+                    p = os.path.join(self.outd, fn)
+                    now = self.identity(p) if os.path.lexists(p) else ("gone",)
+                    if now != ident[fn]:
+                        what = "deleted" if now == ("gone",) else "changed"
+                        self.violate(
+                            "noclobber_file_altered", f"{self.site_kind(fn)}:{what}+{kind}",
+                            f"--no-clobber with {kind} injected at event {at} ({fo.where}): pre-existing {fn} was {what}\n"
+                            f"before={_brief(ident[fn])}\nafter={_brief(now)}", S, kinds, f"noclobber+{kind}@{at}@{fo.frac}")
+                        return
+            self.classes.add(f"noclobber+fault kind={kind} where={fo.where[0].split(':')[0]}:{self.site_kind(os.path.basename(fo.where[1]))} fmt={self.case['fmt']}")
+
+    def replay_fault(self, S, kinds, C, kind, at, frac):
+        self.wipe_out()
+        ident = self.plant(S, kinds, C)
+        fo = Fault(kind, at, frac)
+        res, trace = self.run_cli("noclobber", fault=fo)
+        relS = {os.path.join("out", fn) for fn in S}
+        for (pid, n, op, rel, nb, note) in trace:
+            if rel in relS and is_mutating_op(op) and not note.startswith("failed") and note != "CRASH" and op != "utime":
+                self.violate("noclobber_mutating_op", "replay", f"{op} on pre-existing {rel} with {kind}@{at}", S, kinds, "replay")
+        with self.world.suspend():
+            for fn in S:
+                p = os.path.join(self.outd, fn)
+                now = self.identity(p) if os.path.lexists(p) else ("gone",)
+                if now != ident[fn]:
+                    self.violate("noclobber_file_altered", "replay", f"pre-existing {fn} altered with {kind}@{at}", S, kinds, "replay")
 
     def check_clobber(self, S, kinds, C, mode):
         self.wipe_out()
@@ -332,9 +393,11 @@ class Runner:
             C = self.listing()
             written = {os.path.basename(rel) for (_p, _n, op, rel, _b, note) in trace
                        if rel.startswith("out" + os.sep) and is_mutating_op(op) and not note.startswith("failed")}
-            W = sorted(set(C) | written)
-            if set(W) != set(C):
-                return "discard"
+            # W = what the clean run left behind; temporary files that were
+            # renamed or removed again are not output files of the run
+            W = sorted(C)
+            if set(W) - written:
+                return "discard"  # a file we cannot attribute to the run
             self.W = W
             if only is not None:
                 S, kinds, mode = only
@@ -342,6 +405,9 @@ class Runner:
                     return "discard"
                 if mode == "noclobber":
                     self.check_noclobber(S, kinds, C)
+                elif mode.startswith("noclobber+"):
+                    kind, at, frac = mode[len("noclobber+"):].split("@")
+                    self.replay_fault(S, kinds, C, kind, int(at), float(frac))
                 else:
                     self.check_clobber(S, kinds, C, mode)
                 return "ok"
